@@ -856,13 +856,15 @@ func (m *Machine) memoCall(label string, args []value, kind string) value {
 		}
 		identical := true
 		for i := range ats {
-			if ats[i] != prev.args[i] || (ats[i].sort.K == SFP && !ats[i].isVar) {
+			// identical terms are identical bit patterns, and the memoised
+			// function is deterministic, so this holds for NaN arguments too
+			if ats[i] != prev.args[i] {
 				identical = false
 				break
 			}
 		}
 		if identical {
-			m.inputs = append(m.inputs, InputRec{Label: label, Kind: kind, term: prev.ans})
+			m.inputs = append(m.inputs, InputRec{Label: label, Kind: kind, term: prev.ans, argTerms: ats})
 			switch kind {
 			case "bool":
 				return symBool{prev.ans}
@@ -873,6 +875,7 @@ func (m *Machine) memoCall(label string, args []value, kind string) value {
 		}
 	}
 	ans := m.newInput(label, kind, srt)
+	m.inputs[len(m.inputs)-1].argTerms = ats
 	if kind == "f64" && m.mode == ModeFP {
 		m.addPC(m.tt.Not(m.tt.App("fp.isNaN", sortBool, ans)))
 		m.addPC(m.tt.Not(m.tt.App("fp.isInfinite", sortBool, ans)))
@@ -883,7 +886,21 @@ func (m *Machine) memoCall(label string, args []value, kind string) value {
 		}
 		same := m.tt.True()
 		for i := range ats {
+			if ats[i] == prev.args[i] {
+				continue
+			}
 			if ats[i].sort.K == SFP {
+				if ats[i].isLit && prev.args[i].isLit {
+					// two different literals (hash-consed): equal only as +0/-0
+					a, aok := args[i].(float64)
+					b, bok := prev.vals[i].(float64)
+					if aok && bok {
+						if a != b {
+							same = m.tt.False()
+						}
+						continue
+					}
+				}
 				same = m.tt.And(same, m.tt.App("fp.eq", sortBool, ats[i], prev.args[i]))
 			} else {
 				same = m.tt.And(same, m.tt.Eq(ats[i], prev.args[i]))
@@ -897,7 +914,7 @@ func (m *Machine) memoCall(label string, args []value, kind string) value {
 		}
 		m.addPC(m.tt.Implies(same, eq))
 	}
-	m.memo[label] = append(m.memo[label], memoEntry{args: ats, ans: ans})
+	m.memo[label] = append(m.memo[label], memoEntry{args: ats, ans: ans, vals: append([]value(nil), args...)})
 	switch kind {
 	case "bool":
 		return symBool{ans}
